@@ -104,6 +104,16 @@ def run(ctx):
             q = tot.pop("Q", 0)
             rnd.append(({k: v for k, v in tot.items() if v}, q))
     ctx.count("M", "composed_vectors", len(rnd))
+    # vectors with a surplus (negative count) on one or two elements: what the both-side shortcut of rule_based.run can hand over
+    nneg = 0
+    for (d, q) in list(rnd[:(250 if ctx.quick() else 2500)]) + [({"H": 2, "Cl": 2}, 0), ({"H": 4, "O": 2, "Cl": 2}, 0), ({"O": 1, "H": 2, "Br": 1}, 0)]:
+        if len(d) < 2:
+            continue
+        d2 = dict(d)
+        for k in ctx.rng.sample(sorted(d2), 1 if ctx.rng.random() < 0.7 else 2):
+            d2[k] = -d2[k]
+        rnd.append((d2, q)); nneg += 1
+    ctx.count("M", "vectors_with_negative_entries", nneg)
     nsol = collections.Counter()
     for (d, q) in vecs + rnd:
         data = dict(d)
@@ -127,6 +137,8 @@ def run(ctx):
         meta.append(("matcher", {"db": dbi, "data": data}, exp))
         # property oracle: every completion re-sums to the imbalance
         want = {k: v for k, v in data.items() if v != 0}
+        if exp and any(v < 0 for k, v in data.items() if k != "Q"):
+            ctx.count("M", "negative_vector_with_solutions")
         smiles_db = {r["smiles"] for r in dbs[dbi]}
         for s in exp or []:
             tot = collections.Counter()
